@@ -184,10 +184,13 @@ func (s *HTTPMessageSignatures) Hash() []byte {
 	const int64BytesCount = 8
 
 	hash := sha256.New()
+	// the separators ensure that different settings cannot result in the same sequence of bytes
 	hash.Write(stringx.ToBytes(s.Label))
+	hash.Write([]byte{0})
 
 	for _, component := range s.Components {
 		hash.Write(stringx.ToBytes(component))
+		hash.Write([]byte{0})
 	}
 
 	if s.TTL != nil {
@@ -198,6 +201,7 @@ func (s *HTTPMessageSignatures) Hash() []byte {
 	}
 
 	hash.Write(stringx.ToBytes(s.Signer.Name))
+	hash.Write([]byte{0})
 	hash.Write(stringx.ToBytes(s.Signer.KeyID))
 
 	return hash.Sum(nil)
